@@ -199,7 +199,7 @@ def observe(gfa):
         lookup[n] = None if l is None else _tkey(keys, l)
     return {
         "version": gfa.version,
-        "lines": sorted(line_text(l) for l in gfa.lines),
+        "lines": sorted(text_lines(gfa)),
         "names": names,
         "lookup": lookup,
         "graph": graph,
@@ -207,7 +207,13 @@ def observe(gfa):
 
 
 def text_lines(gfa):
-    return [line_text(l) for l in gfa.lines]
+    try:
+        return [line_text(l) for l in gfa.lines]
+    except Exception as e:
+        # gfa.headers builds fresh H lines and validates them: a header holding an invalid value
+        # makes the listing itself raise (C18's business); fall back to the other collections
+        UNREADABLE.append(("gfa.lines", type(e).__name__))
+        return ["<headers unreadable: %s>" % type(e).__name__] + [line_text(l) for l in listed_lines(gfa)]
 
 
 # ------------------------------------------------------------------ abstract observation
